@@ -673,6 +673,10 @@ class Manager:
                 break  # Stop further event processing
 
         self._currently_handling = None
+        if err is not None:
+            # remembered for the _eventDone() call made once suspended
+            # (generator) handlers of this event have finished
+            event.failed = True
         self._eventDone(event, err)
 
     def _eventDone(self, event, err=None):
@@ -686,7 +690,7 @@ class Manager:
         if event.alert_done:
             self.fire(event.child('done', event.value.value), *event.channels)
 
-        if err is None and event.success:
+        if err is None and not event.failed and event.success:
             channels = getattr(event, 'success_channels', event.channels)
             self.fire(event.child('success', event, event.value.value), *channels)
 
